@@ -159,7 +159,23 @@ class C03(RunProp):
         rng.shuffle(nodes)
         return {"program": [{"name": "g0", "nodes": nodes, "bound": []}], "values": values, "kind": "dag"}
 
+    @staticmethod
+    def _contained_names(rng: random.Random) -> dict:
+        """A single-target gate whose targets' NAMES contain one another (load / reload / reload_all): the decision names one node, a string
+        that happens to contain another target's name selects nothing else."""
+        fam = rng.choice([["load", "reload", "reload_all"], ["fix", "fix_later", "prefix"], ["step", "step_back"], ["check", "recheck"]])
+        rows = [[i, t] for i, t in enumerate(fam)]
+        gate = {"name": "pick", "kind": "route", "params": [["x", None]], "targets": list(fam) + (["__END__"] if rng.random() < 0.4 else []), "multiTarget": False,
+                "fallback": None, "defaultOpen": rng.random() < 0.5, "body": {"b": "table", "rows": rows, "dflt": fam[-1]}}
+        nodes = [gate] + [gen._fn_node(t, [["x", None]], [f"o_{t}"], {"b": "tag", "t": t}) for t in fam]
+        rng.shuffle(nodes)
+        # the LONGEST name is selected: every shorter one it contains must stay off
+        return {"program": [{"name": "g0", "nodes": nodes, "bound": []}], "values": [["x", len(fam) - 1 if rng.random() < 0.7 else rng.randrange(len(fam))]], "cfg": {}, "kind": "dag"}
+
     def cases(self, rng: random.Random, tier: str) -> Iterable[dict]:
+        for c in [self._contained_names(rng) for _ in range(3)]:
+            for runner in ("sync", "async"):
+                yield {"program": c["program"], "values": c["values"], "cfg": {}, "runner": runner, "kind": "dag"}
         # whatever the seed: stacked gates, stacked-gate loops, plain loops
         for c in [self._stacked_gates(rng) for _ in range(5)] + [dict(gen.gen_nested_gate_loop(rng), kind="loop") for _ in range(5)] + \
                 [dict(gen.gen_loop(rng), kind="loop") for _ in range(5)]:
